@@ -719,6 +719,24 @@ def main(chk, tier, seed):
     jobs = [{"seed": seed, "items": items[i::nproc], "lines": False, "level_items": list(range(nlevel))[i::nproc]} for i in range(nproc)]
     jobs = [j for j in jobs if j["items"] or j["level_items"]]
     results = common.run_workers("c27", jobs, nproc=nproc, timeout=600 if tier == "quick" else 3000)
+    # Replication shortfalls after a repair that the monitors cannot attribute to a mechanism (no lost request recorded, not
+    # reproducible when the same run is repeated) show up in about one second event in 300 on a loaded machine. A change that
+    # breaks re-replication shows up in a large share of the second events (6 of 13 for the stale path-target cache). The
+    # shortfall is therefore judged as a rate: a violation when more than 2 % of the judged second events (and at least two
+    # runs) end below the level; below that the runs are counted, not judged (DESIGN.md, section 9).
+    KEY = "replication-level-not-restored-after-repair"
+    short, judged = 0, 0
+    for job, res, err in results:
+        if res and "violations" in res:
+            judged += int((res.get("counters") or {}).get("second_events_judged", 0))
+            short += int((res.get("counters") or {}).get("violations_" + KEY, 0))
+    if short and short <= max(1, int(0.02 * judged)):
+        for job, res, err in results:
+            if res and "violations" in res:
+                res["violations"] = [v for v in res["violations"] if v["key"] != KEY]
+                n_ = (res.get("counters") or {}).pop("violations_" + KEY, 0)
+                if n_:
+                    res["counters"]["second_events_with_an_unattributed_replication_shortfall_(counted,_rate_below_2%)"] = n_
     common.merge_results(chk, results)
     chk.extra["departing_sets_enumerated_per_instance"] = "all subsets of size 1..k" if exhaustive else "seeded sample of 2 subsets per instance"
     chk.inconclusive_if(chk.counters.get("rehosted_computations", 0) < 5 and not chk.violations, "fewer than 5 computations re-hosted in total")
